@@ -10,7 +10,7 @@ from . import common
 from .refs import rope
 
 PROP = "C18"
-KINDS = ["genuine", "other-key", "other-advertising-id", "arbitrary"]
+KINDS = ["genuine", "other-key", "other-advertising-id", "arbitrary", "truncated-genuine", "tagless-modified-genuine"]
 FORMATS = {"uint8": 1, "uint16": 2, "uint32": 4, "uint64": 8, "int": 4}
 
 
@@ -18,7 +18,7 @@ def le(v, n):
     return int_to_rope(v, n, "little")
 
 
-def notification_unit(M, fmt):
+def notification_unit(M, fmt, iid=BA.KNOWN_IID):
     width = FORMATS[fmt]
 
     def h(ex):
@@ -29,37 +29,49 @@ def notification_unit(M, fmt):
         kind = ex.choice("kind", KINDS)
         have_key, have_desc = ex.fresh_bool("have_key"), ex.fresh_bool("have_description")
         value = ex.fresh_int("value", 0, 256 ** width - 1)
-        pt = rope(le(g, 2), le(BA.KNOWN_IID, 2), le(value, width), bytes(8 - width))
+        pt = rope(le(g, 2), le(iid, 2), le(value, width), bytes(8 - width))
+        cut = ex.fresh_int("cut", 0, 15)
         key_name = "bk" if kind != "other-key" else "other"
         adv = BA.ADV_ID if kind != "other-advertising-id" else BA.OTHER_ADV_ID
         if sym:
             W = World.get()
             kb, kb_used = W.term(("key", "bk"), 32), W.term(("key", key_name), 32)
             payload = BA.IdealPartialTag(kb_used).seal(BA.nonce(c), pt, adv) if kind != "arbitrary" else ex.fresh_bytes("adv_payload", 16)
+            if kind == "truncated-genuine":
+                payload = as_rope(payload).slice(0, cut)  # a strict prefix of the genuine bytes
+            elif kind == "tagless-modified-genuine":
+                payload = W.term(("forged", 0), 12)  # the genuine ciphertext without its tag and with value bits flipped: other bytes
         else:
             kb, kb_used = (b"bk" * 32)[:32], (key_name.encode() * 32)[:32]
             payload = BA.seal_real(kb_used, c, pt.concrete(), adv) if kind != "arbitrary" else ex.fresh_bytes("adv_payload", 16)
+            if kind == "truncated-genuine":
+                payload = payload[:cut]
+            elif kind == "tagless-modified-genuine":
+                payload = bytes(payload[:4]) + bytes([payload[4] ^ 0x5A]) + bytes(payload[5:12])
         desc = M.mfr.HomeKitAdvertisement.from_cache("aa:bb", BA.ADV_ID_STR, 1, 0) if have_desc else None
         if desc is not None:
             desc.state_num = s
         p = BA.new_pairing(M, fmt, True, desc)
+        p._accessories_state.accessories.acc.characteristics.known = iid
         if have_key:
             p._broadcast_decryption_key = M.key.BroadcastDecryptionKey(kb)
         note = M.mfr.HomeKitEncryptedNotification(name="n", address="aa:bb", id=BA.ADV_ID_STR, advertising_identifier=BA.ADV_ID,
                                                   encrypted_payload=payload)
         with BA.patched_tasks(M):
             p._async_notification(note)
-        should = (have_key and have_desc and kind == "genuine" and decide(g == c) and decide(s < c) and decide(c < s + 100))
+        # decided for every payload kind, so that each kind is also replayed on the real library with fresh counters
+        fresh = decide(g == c) and decide(s < c) and decide(c < s + 100)
+        should = have_key and have_desc and kind == "genuine" and fresh
         new_s = p.description.state_num if p.description is not None else None
         if should:
             ex.tag("accepted")
             ex.require(len(p.calls) == 1, "an authentic, fresh notification reaches listeners exactly once")
             if len(p.calls) == 1:
                 ev = p.calls[0]
-                ok = list(ev.keys()) == [(1, BA.KNOWN_IID)] and "value" in ev[(1, BA.KNOWN_IID)]
+                ok = list(ev.keys()) == [(1, iid)] and "value" in ev[(1, iid)]
                 ex.require(ok, "delivered under the right characteristic id")
                 if ok:
-                    ex.require(ev[(1, BA.KNOWN_IID)]["value"] == (value if fmt != "int" else (value if decide(value < 2 ** 31) else value - 2 ** 32)),
+                    ex.require(ev[(1, iid)]["value"] == (value if fmt != "int" else (value if decide(value < 2 ** 31) else value - 2 ** 32)),
                                "delivered value is the decoded value the accessory sent")
             ex.require(new_s == c, "the last accepted state number advances to the notification's")
         else:
@@ -67,7 +79,7 @@ def notification_unit(M, fmt):
             ex.require(len(p.calls) == 0, "a replayed, stale, forged, foreign or inconsistent notification never reaches listeners")
             if have_desc:
                 ex.require(new_s == s, "an ignored notification does not change the last accepted state number")
-        return ex.observe([bool(should), len(p.calls), len(p.polls)])
+        return ex.observe([bool(should), len(p.calls)])  # whether the fall-back poll is scheduled is allowed either way
     return h
 
 
@@ -119,7 +131,10 @@ def build(tier, mutate=None):
         units.append(Unit("notification-step/%s" % fmt, notification_unit(C, fmt), notification_unit(R, fmt), split=True,
                           bounds={"last_state": "0..65535", "nonce_counter": "0..70000", "inner_gsn": "0..65535", "payload": KINDS,
                                   "value": "every value of the format", "candidate loop": "fully unrolled (100)"},
-                          regions=["accepted", "ignored"], diff_sample=60))
+                          regions=["accepted", "ignored"], diff_sample=100000))
+    units.append(Unit("notification-step/uint8/iid=0x0123", notification_unit(C, "uint8", 0x0123), notification_unit(R, "uint8", 0x0123), split=True,
+                      bounds={"characteristic id": "0x0123 (two significant bytes)", "otherwise": "as notification-step/uint8"},
+                      regions=["accepted", "ignored"], diff_sample=120))
     units.append(Unit("routing", routing_unit(C), routing_unit(R), bounds={"advertising id": "own / other", "payload": "12 arbitrary bytes"}, regions=["routed"]))
     return units
 
